@@ -41,6 +41,24 @@ def model_equal(sa, sb):
     return sa["cls"] == sb["cls"] and canon(sa) == canon(sb)
 
 
+def ordered(x):
+    """ A payload with the order of its dictionary keys made visible. """
+    if isinstance(x, dict):
+        return ("dict", [(k, ordered(v)) for k, v in x.items()])
+    if isinstance(x, (list, tuple)):
+        return ("list", [ordered(v) for v in x])
+    return x
+
+
+def dict_order_differs(sa, sb):
+    """ Equal payloads whose dictionaries list their keys in another order
+    (Python dictionaries are equal whatever their insertion order). """
+    return any(a.get("data") == b.get("data")
+               and ordered(a.get("data")) != ordered(b.get("data"))
+               for (a, _), (b, _) in zip(sa["layers"], sb["layers"])
+               if a["k"] == b["k"] == "box")
+
+
 def word_only(sa, sb):
     """ The two specs differ only in that a box is a grammar Word in one and
     a plain Box with the same name, domain, codomain, data and dagger flag in
@@ -211,6 +229,10 @@ def check_pair(case):
         return check_word_pair(a, b)
     expected = model_equal(sa, sb)
     got = lib_eq(a, b)
+    if expected and got and dict_order_differs(sa, sb):
+        require(hash(a) == hash(b), "C03:hash-dict-order",
+                lambda: "{!r} == {!r} but hashes differ".format(a, b))
+        return dict(nt=True, labels=["dict-order"])
     require(got == expected,
             "C03:eq-vs-structure" + (":equal-values-unequal" if expected
                                      else ":different-values-equal"),
@@ -413,6 +435,8 @@ def check_bubbles(case):
         ba, bb = a.bubble(), b.bubble()
     if word_only(sa, sb):
         return check_word_pair(ba, bb)
+    if model_equal(sa, sb) and dict_order_differs(sa, sb):
+        return dict(nt=False, labels=["dict-order"])
     expected = model_equal(sa, sb)
     require(lib_eq(ba, bb) == expected, "C03:bubble-eq-ignores-inside",
             lambda: "{!r} == {!r}".format(ba, bb))
@@ -426,7 +450,8 @@ def tower_cases(draw, tier):
     cls = draw(st.sampled_from(CLASSES))
     x, y = draw(st.sampled_from([(0, 0.0), (1, 1.0), (2, 2.0), (0, False),
                                  (1, True), (-1, -1.0)]))
-    where = draw(st.sampled_from(["data", "name", "data-nested"]))
+    where = draw(st.sampled_from(["data", "name", "data-nested",
+                                  "dict-order"]))
     return {"cls": cls, "x": x, "y": y, "where": where}
 
 
@@ -436,19 +461,22 @@ def check_tower(case):
     cls, x, y = case["cls"], case["x"], case["y"]
     t = [["a", 0]]
 
-    def mk(v):
+    def mk(v, first=True):
         b = {"k": "box", "name": "f", "dom": t, "cod": t, "dag": False}
-        if case["where"] == "data":
+        if case["where"] == "dict-order":
+            b["data"] = {"p": 1, "q": x} if first else {"q": x, "p": 1}
+        elif case["where"] == "data":
             b["data"] = v
         elif case["where"] == "data-nested":
             b["data"] = [v, {"p": v}]
         else:
             b["name"] = v
         return specs.box(cls, b)
-    a, b = mk(x), mk(y)
+    a, b = mk(x), mk(y, False)
     if not lib_eq(a, b):
         return dict(nt=False, labels=["not-equal"])
-    require(hash(a) == hash(b), "C03:hash-numeric-tower",
+    require(hash(a) == hash(b), "C03:hash-dict-order"
+            if case["where"] == "dict-order" else "C03:hash-numeric-tower",
             lambda: "{!r} == {!r} but hashes differ".format(a, b))
     return dict(nt=True, labels=[cls, case["where"]],
                 show="{!r} vs {!r}".format(a, b))
